@@ -27,6 +27,9 @@ func (f VeBusAlarmFactoryType) New(v uint8) (VeBusAlarm, error) {
 }
 
 func (f VeBusAlarmFactoryType) NewEnum(v int) (Enum, error) {
+	if v < 0 || v > 255 {
+		return nil, ErrInvalidEnumIdx
+	}
 	return f.New(uint8(v))
 }
 
